@@ -9,6 +9,8 @@ pub mod c03;
 pub mod c04;
 pub mod c09;
 pub mod c10;
+pub mod c11;
+pub mod c12;
 pub mod c18;
 pub mod c19;
 pub mod c20;
@@ -36,6 +38,8 @@ pub fn dispatch(id: &str, ctx: &mut ev::Ctx) -> bool {
         "C08" => c_engine::run_c08(ctx),
         "C09" => c09::run(ctx),
         "C10" => c10::run(ctx),
+        "C11" => c11::run(ctx),
+        "C12" => c12::run(ctx),
         "C16" => c_fd::run(ctx, "C16"),
         "C17" => c_fd::run(ctx, "C17"),
         "C18" => c18::run(ctx),
